@@ -616,6 +616,17 @@ fn lattice_cc(cx: &mut Cx, c1: (i64, i64), r1: i64, c2: (i64, i64), r2: i64) {
 // real-valued configurations
 
 fn rot(p: P2, ang: f64) -> P2 {
+    use std::f64::consts::{FRAC_PI_2, PI};
+    // the four axis directions are exact (no 6e-17 left over from cos(pi/2)): axis-aligned configurations are real ones
+    if ang == 0.0 {
+        return p;
+    } else if ang == FRAC_PI_2 {
+        return P2 { x: -p.y, y: p.x };
+    } else if ang == PI {
+        return P2 { x: -p.x, y: -p.y };
+    } else if ang == 3.0 * FRAC_PI_2 {
+        return P2 { x: p.y, y: -p.x };
+    }
     let (s, c) = ang.sin_cos();
     P2 { x: p.x * c - p.y * s, y: p.x * s + p.y * c }
 }
@@ -651,7 +662,13 @@ fn run_real_case(case_seed: u64, rep: &mut Report, verbose: bool) {
     let mut cx = Cx { rep, replay, verbose, family: String::new() };
     cx.rep.see_counted("nontrivial", 1); // case seeds are distinct by construction (mix of seed, mode, index)
     let res = catch(|| {
-        let ang = rng.f64_range(0.0, std::f64::consts::TAU);
+        // every fifth configuration is axis-aligned (rotated by an exact multiple of a right angle)
+        let ang = if rng.chance(1, 5) {
+            cx.rep.inc("axis_aligned_configurations");
+            rng.below(4) as f64 * std::f64::consts::FRAC_PI_2
+        } else {
+            rng.f64_range(0.0, std::f64::consts::TAU)
+        };
         // keep every coordinate of every reported point inside +-1e3
         let tr = P2 { x: rng.f64_range(-300.0, 300.0), y: rng.f64_range(-300.0, 300.0) };
         let place = |p: P2| add(rot(p, ang), tr);
@@ -815,7 +832,18 @@ fn run_real_case(case_seed: u64, rep: &mut Report, verbose: bool) {
                     let delta = 10f64.powf(rng.f64_range(-3.0, 0.19)) * if rng.chance(1, 2) { 1.0 } else { -1.0 };
                     let v = rot(P2 { x: 1.0, y: 0.0 }, a1 + delta);
                     // second line through a point near the first line so that the intersection stays in the box
-                    let on1 = add(p, scale(u, rng.f64_range(-100.0, 100.0)));
+                    let mut on1 = add(p, scale(u, rng.f64_range(-100.0, 100.0)));
+                    let mut l1 = l1;
+                    if rng.chance(1, 3) {
+                        // the crossing point a hair away from a lattice point (a result "cleaned up" to the nearest round
+                        // value is then off both lines): both lines are laid through that point
+                        let d = |rng: &mut Rng| *rng.pick(&[0.0f64, 1e-12, 3e-10, 1e-8, 1.2e-7, 2e-7, 4e-7, 9e-7, 2e-6, 1e-5]) * if rng.chance(1, 2) { 1.0 } else { -1.0 };
+                        on1 = P2 { x: rng.range_i64(-200, 200) as f64 + d(&mut rng), y: rng.range_i64(-200, 200) as f64 + d(&mut rng) };
+                        let back = rng.f64_range(1.0, 60.0);
+                        let p1 = add(on1, scale(u, -back));
+                        l1 = LineDef::Points(p1, add(on1, scale(u, rng.f64_range(1.0, 60.0))));
+                        cx.rep.inc("crossings_next_to_lattice_points");
+                    }
                     let q = add(on1, scale(v, rng.f64_range(-100.0, 100.0)));
                     let mut l2 = LineDef::Points(q, add(q, scale(v, rng.f64_range(1.0, 100.0))));
                     let mut l1 = l1;
